@@ -32,7 +32,15 @@ def n_runs(tier):
 def generate(rng, tier, index):
     wp = world.gen_world_plan(rng, big=(tier == "thorough"))
     n = rng.choice(wp["images"])["lines"]
-    return {"world": wp, "rpc": common.pick_rpc(rng, n)}
+    plan = {"world": wp, "rpc": common.pick_rpc(rng, n)}
+    if rng.random() < 0.4:
+        # a second product with the same file names and geometry but other samples, in the same
+        # interpreter: elsewhere (other directory / other store) or rewritten in place
+        plan["second"] = {"data_seed": rng.randrange(2**31),
+                          "where": rng.choice(["other-dir", "other-backend", "in-place"]),
+                          "backend": rng.choice(list(world.BACKENDS)),
+                          "partial_first": rng.random() < 0.5}
+    return plan
 
 
 def geometry_class(n, p):
@@ -41,23 +49,44 @@ def geometry_class(n, p):
 
 def execute(plan):
     w = world.World(plan["world"])
-    prod = w.product
-    r = plan["rpc"]
     violations = []
     keys = []
+    worlds = [w]
     try:
+        _check_world(w, plan["rpc"], violations, keys, "")
+        sec = plan.get("second")
+        if sec and not violations:
+            wp2 = dict(plan["world"], data_seed=sec["data_seed"])
+            if sec["where"] == "in-place":
+                w.rewrite_in_place(wp2)
+                w2 = w
+            else:
+                if sec["where"] == "other-backend":
+                    wp2["backend"] = sec["backend"]
+                w2 = world.World(wp2, fresh=False, slot=1)
+                worlds.append(w2)
+            _check_world(w2, plan["rpc"], violations, keys, "second-product:" + sec["where"] + ":")
+        return common.outcome(SIM, violations, keys)
+    finally:
+        for x in worlds:
+            x.destroy()
+
+
+def _check_world(w, r, violations, keys, tag):
+    prod = w.product
+    if True:
         try:
             tree = w.open(use_cache=False, records_per_chunk=r)
         except Exception as e:  # noqa: BLE001
-            violations.append(Violation(ID, "open-raised", type(e).__name__,
+            violations.append(Violation(ID, "open-raised", tag + type(e).__name__,
                                         {"error": exc_text(e), "rpc": r}))
-            return common.outcome(SIM, violations, keys)
+            return
         for name in prod.images:
             truth = prod.truth[name]
             n, p = truth.shape[:2]
             grp = prod.groups[name]
             classes = sorted({pattern_class(x[-1], prod.level) for x in prod.planted[name]})
-            keys.append(f"{prod.level}|{w.backend}|{common.rpc_relation(n, r)}|"
+            keys.append(f"{tag}{prod.level}|{w.backend}|{common.rpc_relation(n, r)}|"
                         f"{'+'.join(classes) or 'plain'}|{geometry_class(n, p)}")
             try:
                 da = tree["imagery"][grp]["data"]
@@ -87,18 +116,17 @@ def execute(plan):
             mm = first_mismatch(bits, truth)
             if mm is not None:
                 idx = mm["index"]
-                site = prod.level + ":" + pattern_class(truth[idx], prod.level)
+                site = tag + prod.level + ":" + pattern_class(truth[idx], prod.level)
                 if prod.level == "1.1":
                     sib = idx[:2] + (1 - idx[2],)
                     site += "/sibling-" + pattern_class(truth[sib], prod.level)
                 mm.update({"group": grp, "rpc": r, "shape": [n, p], "backend": w.backend})
                 violations.append(Violation(ID, "pixel-mismatch", site, mm))
-        return common.outcome(SIM, violations, keys)
-    finally:
-        w.destroy()
 
 
 def shrink(plan):
+    if plan.get("second"):
+        yield common.with_(plan, second=None)
     for wp in world.shrink_world(plan["world"]):
         yield common.with_(plan, world=wp)
     for r in (1, 2):
